@@ -1265,3 +1265,6 @@ META = {
 }
 
 META['explanation'] += ' ' + 'Further necessary conditions of exactness: the OMEN model is read-only for the generator; _fill_out_parse_tree gives up only when no transition fits (a budget is never refused by size for length > 1); every emitted string is built from the current parse tree and construction-time attributes; both level cursors visit cur..min(max_level, budget) inclusive; exact last transition; existing candidates are always taken.'
+
+META['explanation'] += ' ' + 'Round 13: one memo table per length (no container repeated or chained into several slots); the counter of the transition scan is re-initialised on every pass of the level fall-back.'
+META['technique'] = META.get('technique', '') + ' + container-aliasing rule (one memo table per length) + loop-counter lifetime rule'
